@@ -4,6 +4,7 @@ import json, os
 HERE = os.path.dirname(os.path.dirname(os.path.abspath(__file__)))
 props = [json.loads(l) for l in open(os.path.join(HERE, 'properties.jsonl'))]
 
+MACRO_NOTE = 'Trusted: Lean 4.33 kernel; axioms propext/Classical.choice/Quot.sound only; the hand-written Lean model of the code generator is tied to /repo by running the REAL generator (sources included by path into /verif/macroharness) on every shape of a bounded-exhaustive family and comparing extracted facts; the syn-based fact extractor, the meaning rustc gives to the emitted tokens (validated by the compiled behavioural cases in harness/src/bin/shapes.rs) and the harness are trusted.'
 RUNTIME_NOTE = ("Trusted: Lean 4.33 kernel (+ compiler for the model executable); axioms propext/Classical.choice/Quot.sound only; "
                 "the hand-written model is tied to /repo by the correspondence run (real crate vs model, every event and every state "
                 "snapshot compared); std binary_search_by, atomics (SC), Arc::strong_count, thread::panicking, BTreeMap/TypeId are modelled, not verified; "
@@ -38,6 +39,12 @@ CLAIMED = {
              note=RUNTIME_NOTE + " Memory safety proper is trusted to forbid(unsafe_code), the borrow checker and once_cell."),
  'C11': dict(text="Theorems (every world): teardown and Drop on an unwinding thread return ok for originals and clones alike, whatever the expectations, log, live clones and creator thread; dropping a whole scope while unwinding never panics; a panicking call inside a scope owning mocks, and a panicking by-value provided method, unwind cleanly; a panicking matcher leaves the state untouched and deeper user panics leave the log untouched; translator-regenerated table of MutexIsh::locked closures contains only closed bodies (no user code under a lock). Tie: crash-point x topology x thread x met/unmet grid executed in a child process, abort detected by wait status and bisected; traces compared with the model. Partial: panics inside argument Debug rendering and return-value Clone are not in the grid yet.",
              ref="DESIGN.md §4.4, §5 C11", technique="Lean 4 proof over lifecycle machine + lock-site translator + fault-injection grid in child processes with abort detection"),
+ 'C05': dict(text="Theorems about the code-generation model for EVERY shape (any receiver, any parameter list, async / impl Future, provided or not, any unmock and api form): the tuple handed to the matcher is the parameters in declaration order (Impossible marker exactly at &mut T<'a> positions), the answer function gets the receiver and the original bindings in order, the polonius scope is left and re-entered with identical name tuples, arm patterns keep positions, MockFn::Inputs lists the types in order, impl-Future bodies are wholly inside async move. Tie: real generator run as a library on ~3.4k methods (quick) and compared fact by fact; compiled cases check order with same-typed neighbours, &mut mutation, result, async laziness / once per await, generic instantiations.",
+             ref="DESIGN.md §4.7, §5 C05", technique="Lean 4 proof over a code-generation model + IR correspondence with the real macro run as a library + compiled behavioural oracle", note=MACRO_NOTE),
+ 'C15': dict(text="Theorems: the CallDefaultImpl arm exists iff the method is provided and calls the trait's own body on a delegator built per receiver kind with the arguments in order; the delegator's required methods forward in order; by mutual induction over callMethod/runProg, the helper level at which a call is made never influences shared state, user-code log or outcome (calls from inside a default body are evaluated exactly like direct calls); evaluation's CallDefaultImpl runs exactly the default body on the same state. Tie: IR correspondence on all provided-method shapes, compiled cases for all six receiver kinds, runtime scenarios with default bodies calling required methods interleaved with direct calls. KNOWN FINDINGS: sole-owner Rc<Self>/Arc<Self> receivers (see known_findings.jsonl).",
+             ref="DESIGN.md §4.7, §5 C15", technique="Lean 4 proof (codegen model + mutual induction over interaction trees) + IR correspondence + runtime differential correspondence", note=MACRO_NOTE),
+ 'C16': dict(text="Theorems: for &self / self / Rc / Arc receivers the Unmock arm calls the registered path with (self, params in order) or exactly the listed expressions, awaited iff async; without a registered function there is no arm and the runtime panics CannotUnmock naming the method and logs it; the real function runs once on the same shared state. The full statement fails for &mut self / Pin<&mut Self> receivers: C16_unmock_arm_missing_for_mut proves the model (= the code) has no arm there — KNOWN FINDING, reproduced by the compiled case mut.unmock.path. Tie: IR correspondence incl. shuffled/partial listed parameter lists and skipped receiver-less methods shifting positions; runtime scenarios with partial mocks and applies_unmocked incl. re-entrant real functions.",
+             ref="DESIGN.md §4.7, §5 C16", technique="Lean 4 proof (codegen model + runtime model) + IR correspondence + runtime differential correspondence", note=MACRO_NOTE),
 }
 
 checks = []
@@ -52,7 +59,7 @@ for p in props:
         'thorough_cmd': f"./check {pid} --tier thorough",
         'evidence_file': f"/verif/evidence/{pid}.json",
         'replay_cmd_template': f"./check {pid} --replay {{path}}",
-        'engine': 'lean-runtime-model',
+        'engine': 'lean-codegen-model' if pid in ('C05', 'C15', 'C16', 'C06', 'C17', 'C19') else 'lean-runtime-model',
         'level_claimed': {'category': 'proof', 'text': c['text'], 'design_ref': c['ref']},
         'level_note': c.get('note', RUNTIME_NOTE),
         'technique': c['technique'],
@@ -71,6 +78,8 @@ m = {
  'engines': [
    {'name': 'lean-runtime-model', 'path': '/verif/lean', 'serves_properties': sorted(CLAIMED),
     'kind_free_text': 'Lean 4 model of the unimock runtime (builder, assembly, evaluation, verification, lifecycle) with property theorems in lean/Unimock/Props; executable driver compared with the real crate by /verif/harness (Rust) through a line protocol'},
+   {'name': 'lean-codegen-model', 'path': '/verif/lean/Unimock/Model/Codegen', 'serves_properties': [p for p in sorted(CLAIMED) if p in ('C05', 'C15', 'C16', 'C06', 'C17', 'C19')],
+    'kind_free_text': 'Lean 4 model of what the proc macros generate; compared with the real generators run as a library (/verif/macroharness) on generated inputs'},
  ],
  'checks': checks,
  'not_applicable': [{'property_id': p['id'], 'reason': 'not claimed yet: check under construction (see DESIGN.md §9 build order); no technique switch intended'} for p in props if p['id'] not in CLAIMED],
